@@ -1378,22 +1378,33 @@ impl<A: Flavour> Case<A> {
       }
       "info" => {
         argc(1)?;
-        format!(
-          "r=ok val={},{},{},{},{},{},{},{},{},{},{},{},{}",
-          a.unify() as u8,
-          a.read_only() as u8,
-          a.is_map() as u8,
-          a.is_ondisk() as u8,
-          a.is_inmemory() as u8,
-          a.is_map_anon() as u8,
-          a.is_map_file() as u8,
-          a.path().is_some() as u8,
-          a.magic_version(),
-          a.version(),
-          a.page_size(),
-          a.reserved_bytes(),
-          a.data_offset()
-        )
+        // every arena value (the original and its clones) must describe the same arena: the answer is that of the
+        // current value, or of the first value that disagrees with it
+        let describe = |a: &A| {
+          format!(
+            "r=ok val={},{},{},{},{},{},{},{},{},{},{},{},{}",
+            a.unify() as u8,
+            a.read_only() as u8,
+            a.is_map() as u8,
+            a.is_ondisk() as u8,
+            a.is_inmemory() as u8,
+            a.is_map_anon() as u8,
+            a.is_map_file() as u8,
+            a.path().is_some() as u8,
+            a.magic_version(),
+            a.version(),
+            a.page_size(),
+            a.reserved_bytes(),
+            a.data_offset()
+          )
+        };
+        let first = describe(a);
+        self
+          .arenas
+          .values()
+          .map(|p| describe(unsafe { &**p }))
+          .find(|d| *d != first)
+          .unwrap_or(first)
       }
       // the reserved slice as the user sees it: length and position-weighted byte sum (mod 2^32)
       "rres" => {
